@@ -381,6 +381,7 @@ def install(it) -> Aio:
     reg('async_timeout.timeout', lambda it2, a, k: TimeoutCM(aio, a[0] if a else None))
     reg('asyncio.iscoroutinefunction', lambda it2, a, k: _iscoro(a[0]))
     reg('inspect.iscoroutinefunction', lambda it2, a, k: _iscoro(a[0]))
+    reg('inspect.isawaitable', lambda it2, a, k: hasattr(a[0], 'pyvc_await'))
     N['asyncio.FIRST_COMPLETED'] = 'FIRST_COMPLETED'
     return aio
 
